@@ -76,9 +76,6 @@ package regprocessor
 //@ import proto "google.golang.org/protobuf/proto"
 //@ import ed25519 "crypto/ed25519"
 //@ import metrics "github.com/refraction-networking/conjure/pkg/metrics"
-//@ func (m *metrics.Metrics) Add(name string, val int)
-//@   assigns nothing
-//@   trusted
 // (ed25519.Sign panics for a private key of the wrong length - a configuration matter, not input)
 //@ func ed25519.Sign(privateKey ed25519.PrivateKey, message []byte) []byte
 //@   assigns nothing
